@@ -184,6 +184,13 @@ def root_of(v):
             return v
 
 
+def object_of(v):
+    """the object an address lies in: members and elements are stripped, loads are not followed"""
+    while v[0] in ('fld', 'idx'):
+        v = v[1]
+    return v
+
+
 def norm(v):
     """strip the write-epoch from loads so that two reads of the same location compare equal"""
     if not isinstance(v, tuple):
@@ -597,6 +604,9 @@ class Explorer(object):
                     val = self.ev(ins.ops[0], st)
                     addr = self.ev(ins.ops[1], st)
                     st.mem[addr] = val
+                    rv_ = object_of(val) if val[0] in ('alloca', 'fld', 'idx') else None
+                    if rv_ is not None and rv_[0] == 'alloca' and object_of(addr)[0] != 'alloca':
+                        st.escaped = st.escaped | {rv_}      # the address of a local was stored where others can find it
                     if val[0] == 'call' and val[1] in self.FRESH:
                         r_ = root_of(addr)
                         if not (r_[0] == 'alloca' or (r_[0] == 'call' and r_[1] in self.FRESH and r_ not in st.escaped)):
@@ -605,8 +615,12 @@ class Explorer(object):
                     vkey = self._vkey(addr)
                     self._bump(st, vkey)
                     # a store through a pointer kills same-named fields it may alias
+                    ra_ = object_of(addr)
                     for a in list(st.mem):
                         if a != addr and a[0] != 'alloca' and self._vkey(a) == vkey:
+                            r_ = object_of(a)
+                            if r_[0] == 'alloca' and r_ != ra_ and r_ not in st.escaped:
+                                continue      # a member of a local record whose address nobody else has
                             del st.mem[a]
                     st.events.append(Event('store', ins, addr=addr, val=val, in_loop=inloop, field=key,
                                            depth=depth, fn=fn.name, seq=len(st.assume)))
@@ -853,28 +867,40 @@ class Explorer(object):
                 st.wild += 1
                 # forget non-local memory facts (fields of fresh objects that are still private
                 # to this path and are not handed to the callee keep their values)
+                aroots = set(object_of(x) for x in args if x[0] in ('alloca', 'fld', 'idx'))
                 for a in list(st.mem):
                     r_ = root_of(a)
                     private = r_[0] == 'call' and r_[1] in self.FRESH and r_ not in st.escaped and r_ not in args
                     if private:
                         continue
+                    o_ = object_of(a)
+                    if a[0] != 'alloca' and o_[0] == 'alloca' and o_ not in st.escaped and o_ not in aroots:
+                        continue      # member of a local record the callee cannot reach
                     if a[0] != 'alloca' or any(x == a for x in args):
                         del st.mem[a]
                 # out-parameters: allocas passed by address are clobbered
             else:
                 for k in mods:
                     self._bump(st, k)
+                aroots = set(object_of(x) for x in args if x[0] in ('alloca', 'fld', 'idx'))
                 for a in list(st.mem):
                     r_ = root_of(a)
                     private = r_[0] == 'call' and r_[1] in self.FRESH and r_ not in st.escaped and r_ not in args
                     if private:
                         continue
+                    o_ = object_of(a)
+                    if a[0] != 'alloca' and o_[0] == 'alloca' and o_ not in st.escaped and o_ not in aroots:
+                        continue      # member of a local record the callee cannot reach
                     if field_of(a) in mods or (a[0] == 'alloca' and a in args):
                         del st.mem[a]
             for a in args:
                 if a[0] == 'alloca':
                     self._bump(st, a[1])
                     st.mem.pop(a, None)
+            if not name.startswith('llvm.'):
+                for a in args:
+                    if a[0] in ('alloca', 'fld', 'idx') and object_of(a)[0] == 'alloca' and object_of(a) not in st.escaped:
+                        st.escaped = st.escaped | {object_of(a)}     # the callee may keep the address
         # any library call may set errno
         if name not in ('__errno_location',) and not name.startswith('llvm.'):
             if ('errno',) in st.mem:
